@@ -619,7 +619,7 @@ pub fn unmanaged_scenarios(tier: Tier, with_close: bool) -> Vec<Scenario> {
         v.push(uconc("zero-size/new0", "max_size 0: add waits forever, try_add reports Timeout", p, f, UBuild::New(0), vec![vec![UOp::TryAdd, a()], vec![UOp::TryGet, UOp::TimeoutGet0]]));
         v.push(uconc("timeout0-vs-return/vec2", "timeout_get(0) and try_get racing with returns", p, f, UBuild::FromVec(2), vec![vec![UOp::TimeoutGet0, UOp::TryGet, UOp::Release, UOp::Release], vec![g(), UOp::Release]]));
         for (name, build) in [("new2", UBuild::New(2)), ("vec2", UBuild::FromVec(2)), ("cfg1", UBuild::FromConfig(1)), ("new0", UBuild::New(0)), ("vec0", UBuild::FromVec(0))] {
-            v.push(useq(&format!("histories/{}", name), "every history of get / try_get / timeout_get(0) / add / try_add / remove / try_remove / take / return with cancellation of waiting get() and add()", if b.thorough { 2 } else { 1 }, USeqScenario { build, depth: if b.thorough { 8 } else { 6 }, max_tasks: 2, close: false, cancel: true }));
+            v.push(useq(&format!("histories/{}", name), "every history of get / try_get / timeout_get(0) / add / try_add / remove / try_remove / take / return with cancellation of waiting get() and add()", if b.thorough { 2 } else { 1 }, USeqScenario { build, depth: if b.thorough { 8 } else { 6 }, max_tasks: 2, close: false, cancel: true, bfs: false }));
         }
     } else {
         v.push(uconc("close-vs-get/vec1", "close() clears the queue between a getter's permit and its pop", p, f, UBuild::FromVec(1), vec![vec![UOp::TryGet, UOp::Release], vec![UOp::Close]]));
@@ -629,8 +629,24 @@ pub fn unmanaged_scenarios(tier: Tier, with_close: bool) -> Vec<Scenario> {
         v.push(uconc("close-vs-take-return/vec2", "close() vs take and return", p, f, UBuild::FromVec(2), vec![vec![UOp::TryGet, UOp::Take, UOp::TryGet, UOp::Release], vec![UOp::Close, UOp::Status]]));
         v.push(uconc("close-vs-remove/vec1", "close() vs remove()/try_remove()/timeout_get(0)", p, f, UBuild::FromVec(1), vec![vec![UOp::TryRemove, UOp::TimeoutGet0], vec![UOp::Close, UOp::Close]]));
         for (name, build) in [("new1", UBuild::New(1)), ("vec2", UBuild::FromVec(2)), ("new0", UBuild::New(0))] {
-            v.push(useq(&format!("close-histories/{}", name), "close() at every position of every history of unmanaged pool operations", if b.thorough { 2 } else { 1 }, USeqScenario { build, depth: if b.thorough { 8 } else { 6 }, max_tasks: 2, close: true, cancel: true }));
+            v.push(useq(&format!("close-histories/{}", name), "close() at every position of every history of unmanaged pool operations", if b.thorough { 2 } else { 1 }, USeqScenario { build, depth: if b.thorough { 8 } else { 6 }, max_tasks: 2, close: true, cancel: true, bfs: false }));
         }
+    }
+    // breadth-first reachability to closure (unbounded history depth)
+    let shapes: Vec<(&str, UBuild, usize)> = if b.thorough {
+        vec![("new1", UBuild::New(1), 3), ("new2", UBuild::New(2), 3), ("vec2", UBuild::FromVec(2), 3), ("new3", UBuild::New(3), 3), ("vec3", UBuild::FromVec(3), 4), ("new0", UBuild::New(0), 3)]
+    } else {
+        vec![("new1", UBuild::New(1), 2), ("new2", UBuild::New(2), 3), ("vec2", UBuild::FromVec(2), 2), ("new0", UBuild::New(0), 2)]
+    };
+    for (name, build, tasks) in shapes {
+        let mut s = useq(
+            &format!("reach{}/{}/tasks{}", if with_close { "+close" } else { "" }, name, tasks),
+            "all reachable abstract states of the unmanaged pool, breadth first to closure: from every state every operation (and abandonment of waiting calls), plus the stop-and-probe branch",
+            0,
+            USeqScenario { build, depth: usize::MAX, max_tasks: tasks, close: with_close, cancel: true, bfs: true },
+        );
+        s.bfs = true;
+        v.push(s);
     }
     v
 }
